@@ -102,6 +102,12 @@ def setup_link(w, cfg, tx_mcu=None, rx_mcu=None, tx_name="T", rx_name="R"):
     """Build TX and RX drivers on two chips and configure them compatibly via the public API."""
     rt, tx = make_driver(w, tx_name, cfg["tx"], tx_mcu)
     rr, rx = make_driver(w, rx_name, cfg["rx"], rx_mcu)
+    # configuration history: a side may have been configured differently before the configuration under test
+    pre = cfg.get("pre") or {}
+    if pre.get("tx"):
+        apply_common(tx, pre["tx"], cfg["tx"]["cls"] == "lite")
+    if pre.get("rx"):
+        apply_common(rx, pre["rx"], cfg["rx"]["cls"] == "lite")
     apply_common(tx, cfg, cfg["tx"]["cls"] == "lite")
     apply_common(rx, cfg, cfg["rx"]["cls"] == "lite")
     addr = bytes.fromhex(cfg["addr"])
@@ -110,6 +116,11 @@ def setup_link(w, cfg, tx_mcu=None, rx_mcu=None, tx_name="T", rx_name="R"):
     if cfg["pipe"] >= 2:
         rx.open_rx_pipe(1, p1[:n])
     rx.open_rx_pipe(cfg["pipe"], addr[:n])
+    if cfg.get("alt"):
+        # a second receiving pipe of the same peer (the transmitter re-targets to it in mid-run)
+        if cfg["alt"]["pipe"] >= 2 and cfg["pipe"] < 2 and cfg["pipe"] != 1:
+            rx.open_rx_pipe(1, p1[:n])
+        rx.open_rx_pipe(cfg["alt"]["pipe"], bytes.fromhex(cfg["alt"]["addr"])[:n])
     rx.listen = True
     tx.open_tx_pipe(addr[:n])
     tx.listen = False
